@@ -83,11 +83,8 @@ Definition emit_operand (t : tree) : emitted :=
   | _ => EUnmodelled
   end.
 
-Fixpoint emit (fuel : nat) (t : tree) : emitted :=
-  match fuel with O => EFuel | S f =>
-  match t with
-  | Leaf _ => EUnmodelled
-  | Node nt _ kids =>
+(* one node of the tree; rec is the translation of the sub-expressions *)
+Definition emit_node (rec : tree -> emitted) (nt : nat) (kids : list tree) : emitted :=
     let n := List.length kids in
     let k i := nth i kids dummy in
     if Nat.eqb nt N_OneLeftOperandExpressionToken then
@@ -116,7 +113,7 @@ Fixpoint emit (fuel : nat) (t : tree) : emitted :=
         match o with
         | None => EOk []
         | Some x =>
-            match (if is_nt N_OperandToken x then emit_operand x else emit f x) with
+            match (if is_nt N_OperandToken x then emit_operand x else rec x) with
             | EOk c => EOk (if br then [IParen c] else c)
             | other => other
             end
@@ -148,7 +145,13 @@ Fixpoint emit (fuel : nat) (t : tree) : emitted :=
           end
       | EOk _, other => other
       | other, _ => other
-      end
+      end.
+
+Fixpoint emit (fuel : nat) (t : tree) : emitted :=
+  match fuel with O => EFuel | S f =>
+  match t with
+  | Leaf _ => EUnmodelled
+  | Node nt _ kids => emit_node (emit f) nt kids
   end end.
 
 (* ---------- Python's grouping of a juxtaposition sequence:  sum := term (('+'|'-') term)* ; term := factor (('*'|'/') factor)* ;
